@@ -529,16 +529,22 @@ def sub_store(inp, outp):
     json.dump(res, open(outp, "w"))
 
 
-def sub_load(root, casef, outp):
-    """process B (fresh): what the conductor entry point does with a stored study"""
+def sub_load(root, casef, outp, real_root=None, cwd=None):
+    """process B (fresh): what the conductor entry point does with a stored study.  `root` is the
+    directory argument AS SPELLED (relative, `.`, with `..`, trailing slash, a symlink ...), to be
+    resolved from `cwd`; everything observed is expressed relative to `real_root`."""
     from harness.props import c08
     c08.quiet()
     case = json.load(open(casef))
+    outp = os.path.abspath(outp)
+    if cwd:
+        os.chdir(cwd)
+    spelled, root = root, (real_root or root)
     r = {}
     try:
         from maestrowf.conductor import Conductor
-        study = Conductor.load_study(root)
-        batch = Conductor.load_batch(root)
+        study = Conductor.load_study(spelled)
+        batch = Conductor.load_batch(spelled)
         r["batch"] = _norm(batch)
     except Exception as e:
         r.update({"ok": False, "err": 6, "exc": type(e).__name__, "msg": str(e)[:300]})
@@ -561,6 +567,46 @@ def sub_load(root, casef, outp):
     except Exception:
         pass
     json.dump(r, open(outp, "w"))
+
+
+def sub_loadsnap(root, casef, outp):
+    """fresh process: the execution graph the real `conductor` entry point left in <root>/<name>.pkl"""
+    from harness.props import c08
+    c08.quiet()
+    case = json.load(open(casef))
+    r = {}
+    try:
+        from maestrowf.conductor import Conductor
+        from maestrowf.datastructures.core.executiongraph import ExecutionGraph
+        study = Conductor.load_study(root)
+        study.used_params = {}
+        dag = ExecutionGraph.unpickle(os.path.join(root, STUDY_NAME + ".pkl"))
+        r.update(_observe(case, study, dag, root, c08))
+        r["states"] = sorted({str(v.status.name) for k, v in dag.values.items() if v is not None})
+    except Exception as e:
+        r.update({"ok": False, "err": 6, "exc": type(e).__name__, "msg": str(e)[:300]})
+    json.dump(r, open(outp, "w"))
+
+
+SPELLINGS = ["abs", "rel", "dot", "dotdot", "slash", "symlink"]
+
+
+def spell(root, how, linkdir):
+    """(directory argument, cwd) for one spelling of the same study directory"""
+    if how == "rel":
+        return os.path.basename(root), os.path.dirname(root)
+    if how == "dot":
+        return ".", root
+    if how == "dotdot":
+        return os.path.join(root, "..", os.path.basename(root)), None
+    if how == "slash":
+        return root + os.sep, None
+    if how == "symlink":
+        lnk = os.path.join(linkdir, "lnk-" + os.path.basename(os.path.dirname(root)))
+        if not os.path.islink(lnk):
+            os.symlink(root, lnk)
+        return lnk, None
+    return root, None
 
 
 def _self(args, timeout=600):
@@ -596,17 +642,41 @@ def diff_obs(a, b, root_a, root_b):
     return "differ"
 
 
+def shm_dir(ck, tag):
+    """a scratch directory on ANOTHER file system than TMPDIR (/verif/_work/tmp for every sub-process,
+    see e2e.base_env): /dev/shm is a tmpfs; '' (with a note) when it cannot be used"""
+    base = "/dev/shm/verif_c18_%d" % os.getpid()
+    try:
+        d = os.path.join(base, tag)
+        os.makedirs(d, exist_ok=True)
+        if os.stat(d).st_dev == os.stat(common.WORK).st_dev:
+            raise OSError("same file system as /verif/_work")
+        return d
+    except OSError as e:
+        ck.notes["cross_filesystem_cases"] = "skipped: /dev/shm not usable (%s)" % e
+        return ""
+
+
+def shm_sweep():
+    shutil.rmtree("/dev/shm/verif_c18_%d" % os.getpid(), ignore_errors=True)
+
+
 def handoff_part(ck, cases, c08, tag="C18_handoff"):
     from harness import e2e
     tag = e2e.utag(tag)
     work = os.path.join(common.WORK, tag)
     shutil.rmtree(work, ignore_errors=True)
     os.makedirs(work)
+    shm = shm_dir(ck, tag)
     jobs = []
     for i, case in enumerate(cases):
         d = os.path.join(work, "h%d" % i)
         os.makedirs(d)
-        job = {"case": case, "root": os.path.join(d, "out"), "dir": d, "spec": None, "pgen": None}
+        on_shm = bool(shm) and i % 3 == 1          # output root on another file system than TMPDIR
+        rbase = os.path.join(shm, "h%d" % i) if on_shm else d
+        os.makedirs(rbase, exist_ok=True)
+        job = {"case": case, "root": os.path.join(rbase, "out"), "dir": d, "spec": None, "pgen": None,
+               "spelling": SPELLINGS[i % len(SPELLINGS)], "shm": on_shm, "rbase": rbase}
         try:
             yp = yaml_params_ok(case) and not case.get("pgen_kind")
             with open(os.path.join(d, "spec.yaml"), "w") as f:
@@ -644,7 +714,8 @@ def handoff_part(ck, cases, c08, tag="C18_handoff"):
         if not job["A"].get("stored"):
             return None
         outp = os.path.join(job["dir"], "b.json")
-        rc, out = _self(["load", job["root"], os.path.join(job["dir"], "case.json"), outp])
+        arg, cwd = spell(job["root"], job["spelling"], job["dir"])
+        rc, out = _self(["load", arg, os.path.join(job["dir"], "case.json"), outp, job["root"], cwd or ""])
         try:
             return json.load(open(outp))
         except Exception:
@@ -657,7 +728,7 @@ def handoff_part(ck, cases, c08, tag="C18_handoff"):
             return None
         if case["cfg"]["dry"] and case["batch"].get("type") != "local":
             return None      # the foreground dry run would instantiate the slurm/lsf/flux adapter (C15's business; flux is absent)
-        root2 = os.path.join(job["dir"], "cli")
+        root2 = os.path.join(job["rbase"], "cli")
         # --dry launches even with -n (detached); a dry run is therefore done in the foreground: the study
         # is stored before it starts, and that stored study is what the fresh process loads
         argv = (["run", "--dry", "-fg", "-y"] if case["cfg"]["dry"] else ["run", "-n"]) + \
@@ -688,6 +759,25 @@ def handoff_part(ck, cases, c08, tag="C18_handoff"):
                [j for j in jobs if j["A"].get("yaml_ok") and not j["case"].get("pgen_kind")][:ncli]
     for job, c in zip(cli_jobs, e2e.pmap(run_cli, cli_jobs)):
         job["C"] = c
+
+    # the real `conductor` entry point on the stored study, its directory argument spelled in the job's way
+    # (dry-run studies with a local batch block only: nothing is executed, no scheduler adapter is needed)
+    def run_entry(job):
+        a, case = job["A"], job["case"]
+        if not (a.get("stored") and a.get("ok") and case["cfg"]["dry"] and case["batch"].get("type") == "local"):
+            return None
+        arg, cwd = spell(job["root"], job["spelling"], job["dir"])
+        rc, out = e2e.launch("conductor", ["-t", 1, arg], cwd or job["dir"], {"E2E_POLL_SLEEP": "1", "E2E_MAX_POLLS": "200"})
+        if rc != 0:
+            return {"ok": False, "err": 7, "exc": "conductor", "msg": "rc=%d %s" % (rc, out[-500:])}
+        outp = os.path.join(job["dir"], "d.json")
+        rc, out = _self(["loadsnap", job["root"], os.path.join(job["dir"], "case.json"), outp])
+        try:
+            return json.load(open(outp))
+        except Exception:
+            return {"ok": False, "err": 9, "exc": "loadsnap", "msg": "rc=%d %s" % (rc, out[-400:])}
+    for job, dres in zip(jobs, e2e.pmap(run_entry, jobs)):
+        job["D"] = dres
 
     # compare
     dist = Counter()
@@ -724,9 +814,34 @@ def handoff_part(ck, cases, c08, tag="C18_handoff"):
             continue
         dd = diff_obs(a, b, job["root"], job["root"])
         if dd:
-            ck.violation("hand-off: the re-loaded study stages differently from the in-memory study: " + dd, slim)
+            ck.violation("hand-off: the re-loaded study (directory argument spelled '%s'%s) stages differently from the "
+                         "in-memory study: %s" % (job["spelling"], ", output root on /dev/shm" if job["shm"] else "", dd),
+                         dict(slim, spelling=job["spelling"]))
             continue
         dist["A=B:" + ("staged" if a.get("ok") else "both raise err %s" % a.get("err"))] += 1
+        dist["spelling:" + job["spelling"]] += 1
+        if job["shm"]:
+            dist["output_root_on_other_filesystem"] += 1
+        dres = job.get("D")
+        if dres is not None:
+            if dres.get("err") in (6, 7, 9):
+                ck.violation("hand-off: the `conductor` entry point (directory argument spelled '%s') failed on the stored "
+                             "dry-run study: %s: %s" % (job["spelling"], dres.get("exc"), dres.get("msg")), dict(slim, spelling=job["spelling"]))
+                continue
+            dres = dict(dres, used=a.get("used"), batch=a.get("batch"))
+            # the remaining-dependency sets shrink while the graph executes: not part of the staging
+            for nd, na in zip(dres.get("nodes") or [], a.get("nodes") or []):
+                nd["deps"] = na.get("deps")
+            dd2 = diff_obs(a, dres, job["root"], job["root"])
+            if dd2:
+                ck.violation("hand-off: the snapshot left by the `conductor` entry point (directory argument spelled '%s') "
+                             "differs from the in-memory staging: %s" % (job["spelling"], dd2), dict(slim, spelling=job["spelling"]))
+                continue
+            if dres.get("states") != ["DRYRUN"]:
+                ck.violation("hand-off: the conductor entry point on the stored dry-run study left states %r" % dres.get("states"),
+                             dict(slim, spelling=job["spelling"]))
+                continue
+            dist["conductor_entry:" + job["spelling"]] += 1
         if a.get("ok"):
             dist["instances:%02d" % min(len(a["nodes"]) - 1, 20)] += 1
         c = job.get("C")
@@ -759,6 +874,7 @@ def handoff_part(ck, cases, c08, tag="C18_handoff"):
                     json.dumps(lit_jobs[i][1])[:2500])
     dist["model_compared"] = len(lits)
     shutil.rmtree(work, ignore_errors=True)
+    shm_sweep()
     return dict(sorted(dist.items())), len(jobs)
 
 
@@ -807,10 +923,17 @@ def snapshot_histories(ck, n, rng, tag="C18_snap"):
     os.makedirs(work)
     nchunk = common.NCPU
     cases, dist = [], Counter()
+    shm = shm_dir(ck, tag)
+    import tempfile
+    old_tmp = tempfile.tempdir
+    tempfile.tempdir = os.path.join(common.WORK, "tmp")     # the temp dir of this process, as for every sub-process
+    os.makedirs(tempfile.tempdir, exist_ok=True)
     for i in range(n):
         chunk = os.path.join(work, "k%d" % (i % nchunk))
         os.makedirs(chunk, exist_ok=True)
-        live = os.path.join(work, "live%d" % i)
+        live = os.path.join(shm, "live%d" % i) if (shm and i % 3 == 0) else os.path.join(work, "live%d" % i)
+        if shm and i % 3 == 0:
+            dist["live_dir_on_other_filesystem"] += 1
         shape, nodes = H.gen_graph(rng)
         cfg = H.gen_cfg(rng, len(nodes))
         prof = rng.choice(list(H.PROFILES))
@@ -886,7 +1009,9 @@ def snapshot_histories(ck, n, rng, tag="C18_snap"):
         if c["problems"]:
             ck.violation("snapshot: " + c["problems"][0], dict(EP.strip(c), problems=c["problems"][:5]))
     dist["snapshots_reloaded_in_fresh_process"] = nsnap
+    tempfile.tempdir = old_tmp
     shutil.rmtree(work, ignore_errors=True)
+    shm_sweep()
     return dict(sorted(dist.items())), nsnap
 
 
@@ -898,14 +1023,22 @@ def snapshot_e2e(ck, n, rng, tag="C18_e2e"):
     shutil.rmtree(work, ignore_errors=True)
     items = [{"case": e2e.gen_local_study(rng, shape=rng.choice(["chain", "diamond", "layered", "funnel", "random"])),
               "mode": rng.choice(["fg", "fg", "conductor"]), "dir": os.path.join(work, "c%d" % i)} for i in range(n)]
+    shm = shm_dir(ck, tag)
+    for i, it in enumerate(items):
+        if shm and i % 2 == 1:
+            it["dir"] = os.path.join(shm, "c%d" % i)
     side = common.Check("C19", ck.tier, ck.seed)          # C19's clauses are not C18's verdict
     summ = e2e.evaluate(side, tag, items, keep_dirs=True)
     if side.concrete or side.corr_failures:
         ck.notes["e2e_side_findings"] = [w for w, _ in side.concrete][:3] + [w for w, _, _ in side.corr_failures][:3]
     outp = os.path.join(work, "rows.json")
+    os.makedirs(work, exist_ok=True)
     rc, out = _self(["snapcheck", work, outp])
     try:
         res = json.load(open(outp))
+        if shm:
+            rc, out = _self(["snapcheck", shm, outp + ".shm"])
+            res.update(json.load(open(outp + ".shm")))
     except Exception:
         ck.mismatch("e2e snapshots: the fresh re-loading process did not complete", None, "rc=%d %s" % (rc, out[-400:]))
         shutil.rmtree(work, ignore_errors=True)
@@ -913,7 +1046,7 @@ def snapshot_e2e(ck, n, rng, tag="C18_e2e"):
     nsnap = 0
     for it, r in zip(items, summ):
         d = it["dir"]
-        rel = os.path.relpath(d, work)
+        rel = os.path.relpath(d, shm if (shm and d.startswith(shm)) else work)
         pairs = [(os.path.join(rel, "snap", "graph.%d.pkl" % k), os.path.join(d, "snap", "status.%d.csv" % k))
                  for k in range(max(0, r["polls"] - 1))]
         pairs.append((os.path.join(rel, "out", e2e.STUDY + ".pkl"), os.path.join(d, "out", "status.csv")))
@@ -1001,8 +1134,10 @@ def run(ck):
 
     from harness import e2e
     e2e.sweep()
+    shm_sweep()
     rc = ck.finish(search=search)
     e2e.sweep()
+    shm_sweep()
     return rc
 
 
@@ -1051,7 +1186,10 @@ if __name__ == "__main__":
     if mode == "store":
         sub_store(sys.argv[2], sys.argv[3])
     elif mode == "load":
-        sub_load(sys.argv[2], sys.argv[3], sys.argv[4])
+        sub_load(sys.argv[2], sys.argv[3], sys.argv[4], sys.argv[5] if len(sys.argv) > 5 else None,
+                 (sys.argv[6] or None) if len(sys.argv) > 6 else None)
+    elif mode == "loadsnap":
+        sub_loadsnap(sys.argv[2], sys.argv[3], sys.argv[4])
     elif mode == "snapcheck":
         sub_snapcheck(sys.argv[2], sys.argv[3])
     else:
